@@ -25,10 +25,10 @@ class XorShiftl(_Pure):
     name = "hashes._xor_shiftl"
 
     def requires(self, F):
-        yield "shift<64", z3.ULT(F.l, bv(64))
+        yield "shift<64", z3.ULT(F.wide("l"), bv(64))
 
     def ensures(self, F):
-        yield "spec", F.res == F.v ^ (F.t << F.l)
+        yield "spec", F.res == F.wide("v") ^ (F.wide("t") << F.wide("l"))
 
 
 @register
